@@ -282,6 +282,26 @@ theorem C04_short_year_is_error {π : Type} (src : Source π) (n : Nat) (st : DS
     runDays src (n + 1) st = none := by
   simp [runDays, advanceDay, hroll, hshort]
 
+/-- **A leap year that lacks only its last day is an error — at both places that decide "year
+complete".** The day counts are exact (366, not "at least 365"): (1) a multi-year reader whose year
+slot in use holds a leap year up to day 365 returns its error at the following 1 January; (2) the
+day loop, standing on day 365 of a leap year whose loaded weather has 365 days, ends the run instead
+of entering the next year one day early. Concrete instance: 2000. -/
+theorem C04_leap_year_short_by_one_is_error {π : Type} :
+    (∀ (startyear cap : Nat) (s : MState π) (r : Rec π) (rest : List (Rec π)) (ly : Nat),
+      s.first = false → startyear ≤ r.year → 1 ≤ r.year → r.doy = 1 → daysInYear ly = 366 →
+      s.store.jarAt (s.yrz - 1) = ly → s.store.maxAt (s.yrz - 1) = 365 →
+      readMultiFrom startyear cap s (r :: rest) = none) ∧
+    (∀ (src : Source π) (n : Nat) (st : DState π),
+      daysInYear (1900 + st.j) = 366 → st.jtag = 365 → st.tagNum = 365 → runDays src (n + 1) st = none) ∧
+    daysInYear 2000 = 366 := by
+  refine ⟨?_, ?_, by decide⟩
+  · intro startyear cap s r rest ly hs hy hy1 h1 hl hj hm
+    exact C04_reader_rejects_gap_before_jan1 startyear cap s hs r rest hy hy1 h1 ly 365 hj hm
+      (Or.inr (by omega))
+  · intro src n st hl hj ht
+    exact C04_short_year_is_error src n st (by omega) (by omega)
+
 /-- **Still violated: the series starts after the first simulated day, inside the start year**
 (multi-year layouts). The first-record fail-safe puts the first record into the slot of its own
 date and nothing checks the slots before it. Witness: the file starts on 3 January 1981, the run
@@ -375,6 +395,10 @@ example : (readCSV 1981 1 ([⟨1981, 1, 1, false⟩, ⟨1, 1, 2, true⟩, ⟨198
 -- a line numbered 366 in the year file of 1981: error
 example : (readYearFile 1981 ({} : Store Nat) (some (numberFrom 365 [7, 8]))).2 = YStatus.gap := by decide
 example : (readYearLines 1981 ({} : Store Nat) 364 (numberFrom 365 [7, 8])).2 = YStatus.beyond := by decide
+-- 2000 without its 31 December: 30 December 2000 (day 365) followed by 1 January 2001 is rejected,
+-- and so is a run standing on day 365 of 2000 with JTAG = 365
+example : (readCSV 2000 2 ([⟨2000, 364, 1, false⟩, ⟨2000, 365, 2, false⟩, ⟨2001, 1, 3, false⟩] : List (Rec Nat))).isNone = true := by decide
+example : (runDays (.multi 0) 1 ({ zeit := masdat 100 12 30, tagNum := 365, j := 100, jtag := 365, g := [], store := {} } : DState Nat)).isNone = true := by decide
 -- former witness F3b: 30 December followed by 1 January is rejected now
 example : (readCSV 1981 2 ([⟨1981, 363, 1, false⟩, ⟨1981, 364, 2, false⟩, ⟨1982, 1, 3, false⟩, ⟨1982, 2, 4, false⟩] : List (Rec Nat))).isNone = true := by decide
 -- former witness F3: file 1–3 January 1981, run 1–5 January 1981 ends with an error, in every layout
